@@ -134,9 +134,12 @@ def check_tree(ctx, case, instance, errors, order):
                 mech = None
                 # known residual: the node recorded, as "its instance", the instance of an error whose
                 # instance is not the value at its path (propertyNames errors carry the property *name*)
-                for er in seq:
-                    if tuple(er.path) == pre and er.instance is not val and isinstance(er.instance, str) \
-                            and isinstance(val, dict) and er.instance in val:
+                # - only when that error is the one filed LAST at the node (the constructor lets the last one win; a
+                #   lookup that fails although the last error filed there carries the real value is something else)
+                at_node = [er for er in seq if tuple(er.path) == pre]
+                if at_node:
+                    er = at_node[-1]
+                    if er.instance is not val and isinstance(er.instance, str) and isinstance(val, dict) and er.instance in val:
                         mech = "errortree-node-instance-from-propertyNames-error"
                 ctx.violation("error-free-lookup-raised", case, "node at %r, index %r: %s: %s" % (
                     list(pre), idx, type(e).__name__, str(e)[:100]), mech=mech)
